@@ -5,7 +5,10 @@
 (*    discovery (C19: findPort / find_named_ebb)                                   *)
 (*      -> testPort (open, flush, probe 'v' at most twice, reject = close)         *)
 (*      -> openPort / open_named_port hand the port object to the caller           *)
-(*      -> closePort (None is a no-op, a raising close() is swallowed).            *)
+(*      -> closePort (None is a no-op, a raising close() is swallowed),            *)
+(*    plus queryVersion on the port in hand (one 'V' request, the identification   *)
+(*    line back; None without a port) and list_port_info (three strings per port, *)
+(*    None for an empty bus).                                                      *)
 (* One action per step of the code, so that a handle that is opened and neither    *)
 (* returned nor closed is visible as a state (`Leaked`).  The environment is a     *)
 (* bus of at most MaxPorts ports: what the OS says about each (descriptor class,   *)
@@ -18,7 +21,7 @@ Classes == {"d", "i", "x"}            \* description starts with the product nam
 Tags == {"A", "-"}                    \* SER=A in the hardware id, or no tag
 Kinds == {"board", "slow", "other", "mute", "noopen", "wfault", "rfault"}
 Slot == [c : Classes, tag : Tags, k : Kinds]
-Calls == {"openPort", "openA", "openB", "closeLast", "closeNone"}
+Calls == {"openPort", "openA", "openB", "closeLast", "closeNone", "version", "listInfo"}
 VARIABLES bus, closeRaises, handles, held, given, pc, call, target, cur, probes, ret, hist
 vars == <<bus, closeRaises, handles, held, given, pc, call, target, cur, probes, ret, hist>>
 env == <<bus, closeRaises>>
@@ -37,8 +40,9 @@ Answers(k, n) == (k = "board" /\ n >= 1) \/ (k = "slow" /\ n >= 2)
 Init == /\ bus \in Buses /\ closeRaises \in BOOLEAN
         /\ handles = <<>> /\ held = 0 /\ given = {} /\ pc = "idle" /\ call = "none" /\ target = 0 /\ cur = 0 /\ probes = 0 /\ ret = 0 /\ hist = <<>>
 Begin(c) == /\ pc = "idle" /\ Len(hist) < MaxCalls
+            /\ c = "version" => (IF held = 0 THEN TRUE ELSE handles[held].open)      \* asking a closed port is outside this model (pyserial raises PortNotOpenError)
             /\ call' = c /\ target' = 0 /\ cur' = 0 /\ probes' = 0 /\ ret' = 0
-            /\ pc' = IF c \in {"closeLast", "closeNone"} THEN "closing" ELSE "find"
+            /\ pc' = IF c \in {"closeLast", "closeNone"} THEN "closing" ELSE IF c \in {"version", "listInfo"} THEN "asking" ELSE "find"
             /\ UNCHANGED <<env, handles, held, given, hist>>
 Find == /\ pc = "find"
         /\ target' = IF call = "openPort" THEN FirstBoard ELSE Named(IF call = "openA" THEN "A" ELSE "B")
@@ -69,18 +73,24 @@ Closing == /\ pc = "closing"
               ELSE UNCHANGED handles
            /\ pc' = "done"
            /\ UNCHANGED <<env, held, given, call, target, cur, probes, ret, hist>>
+\* queryVersion / list_port_info: no state change on this side; the answer is a function of the state
+Asking == /\ pc = "asking" /\ pc' = "done"
+          /\ UNCHANGED <<env, handles, held, given, call, target, cur, probes, ret, hist>>
+Answer == IF call = "version" THEN (IF held = 0 THEN "none" ELSE "line")         \* a port in hand was accepted as a board: it answers 'V'
+          ELSE IF call = "listInfo" THEN (IF Len(bus) = 0 THEN "none" ELSE "list")
+          ELSE "n/a"
 OpenSlots == {i \in 1..Len(handles) : handles[i].open}
 Return == /\ pc = "done"
           /\ hist' = Append(hist, [call |-> call, target |-> target, ret |-> IF ret = 0 THEN 0 ELSE handles[ret].slot, probes |-> probes,
-                                   nhandles |-> Len(handles), open |-> OpenSlots, leaked |-> {i \in OpenSlots : i \notin given}, held |-> held])
+                                   nhandles |-> Len(handles), ans |-> Answer, nstrings |-> IF call = "listInfo" THEN 3 * Len(bus) ELSE 0, open |-> OpenSlots, leaked |-> {i \in OpenSlots : i \notin given}, held |-> held])
           /\ pc' = "idle"
           /\ UNCHANGED <<env, handles, held, given, call, target, cur, probes, ret>>
-Next == (\E c \in Calls : Begin(c)) \/ Find \/ Open \/ Probe \/ Reject \/ Closing \/ Return
+Next == (\E c \in Calls : Begin(c)) \/ Find \/ Open \/ Probe \/ Reject \/ Closing \/ Asking \/ Return
 Spec == Init /\ [][Next]_vars
-FairSpec == Spec /\ WF_vars(Find \/ Open \/ Probe \/ Reject \/ Closing \/ Return)
+FairSpec == Spec /\ WF_vars(Find \/ Open \/ Probe \/ Reject \/ Closing \/ Asking \/ Return)
 
 \* ---------------- what one would like to be true of a session ----------------
-TypeOK == /\ pc \in {"idle", "find", "open", "probe", "reject", "closing", "done"} /\ held \in 0..Len(handles) /\ probes \in 0..2
+TypeOK == /\ pc \in {"idle", "find", "open", "probe", "reject", "closing", "asking", "done"} /\ held \in 0..Len(handles) /\ probes \in 0..2
 \* an open call hands out a port exactly when its discovery target exists and the device behind it answers as a board within two probes
 ReturnsBoardOnly == (pc = "done" /\ call \in {"openPort", "openA", "openB"}) =>
                       /\ (ret # 0) <=> (target # 0 /\ bus[target].k \in {"board", "slow"})
@@ -94,6 +104,8 @@ Leaked == {i \in OpenSlots : i \notin given /\ ~(pc \in {"probe", "reject"} /\ i
 NoLeakExceptOnFault == \A i \in Leaked : bus[handles[i].slot].k \in {"wfault", "rfault"}
 \* the strict wish; refuted by TLC on purpose in LegacySession_pinned.cfg (shows the deviation is real in the model)
 NoLeak == Leaked = {}
+\* only a port that passed the handshake is ever in the caller's hand, so a version request in a session is always answered
+HeldIsBoard == held # 0 => bus[handles[held].slot].k \in {"board", "slow"}
 CloseCloses == (pc = "done" /\ call = "closeLast" /\ held # 0) => ~handles[held].open
 CloseNoneIsNoOp == [][(pc = "closing" /\ call = "closeNone") => handles' = handles]_vars
 EveryCallReturns == (pc # "idle") ~> (pc = "idle")
